@@ -173,7 +173,9 @@ class Timeline(object):
         items = []
         for d in dicts:
             time = d["time"]
-            if isinstance(time, datetime.date):
+            if isinstance(time, datetime.datetime):
+                pass
+            elif isinstance(time, datetime.date):
                 time = datetime.datetime.combine(
                     time, datetime.datetime.min.time()
                 )
